@@ -191,6 +191,11 @@ def ensure_model(force=False):
         _changed, _err = srctables.regenerate(REPO, COQ)
         if _err:
             sys.stderr.write("[translate] /repo tables could not be translated: %s\n" % _err)
+        # translator, expression level: clang's typed AST of small integer functions of sbepp.hpp -> coq/SrcExprs.v
+        import srcexprs
+        _changed2, _err2 = srcexprs.regenerate(REPO, COQ)
+        if _err2:
+            sys.stderr.write("[translate] /repo expressions could not be translated: %s\n" % _err2)
         srcs = [os.path.join(COQ, f) for f in coq_sources() if f != "Extract.v"] + \
                tree_files(os.path.join(COQ, "extract.d")) + \
                tree_files(os.path.join(VERIF, "ocaml"), {".ml"})
